@@ -204,6 +204,9 @@ def H_structure(ctx, cfg):
         ctx.prove(ok_cs, "chunk-sizes-are-powers-of-two-holding-about-target^3-voxels", detail=f"level {l}: {cs} target {tcs}")
         for leaf in (sc["key"], sc["encoding"]):
             ctx.prove(isinstance(leaf, str), "json-leaf-types")
+        for leaf in list(cs) + list(sc["size"]):
+            # plain integers (symbolic or not), never NumPy scalars: json.dumps refuses those
+            ctx.prove(not isinstance(leaf, real_np.generic), "json-leaf-types", detail=f"level {l}: {type(leaf).__name__}")
     ctx.prove(z3.And(conds), "level-size-is-full-size-divided-by-the-axis-factor-rounded-up")
     keys = [s["key"] for s in scales]
     ctx.prove(len(set(keys)) == len(keys), "scale-keys-pairwise-distinct", detail=str(keys))
@@ -323,7 +326,8 @@ def H_json(ctx, cfg):
     load.patch("dyadic_pyramid", math=real_math)
     bad = []
     for i, (size, res, tcs) in enumerate((([100, 100, 100], [1.0, 1.0, 1.0], 64), ([1000, 300, 7], [800.0, 800.0, 1200.0], 16),
-                                          ([5, 5, 5], [0.5, 0.5, 2.0], 2), ([2048, 2048, 100], [1000.0, 1000.0, 20000.0], 64))):
+                                          ([5, 5, 5], [0.5, 0.5, 2.0], 2), ([2048, 2048, 100], [1000.0, 1000.0, 20000.0], 64),
+                                          ([96, 80, 5], [4.0, 4.0, 160.0], 8), ([64, 64, 3], [1.0, 1.0, 100000.0], 64))):
         full = dict(type="image", data_type="uint8", num_channels=1, scales=[dict(size=size, resolution=res, voxel_offset=[0, 0, 0], encoding="raw")])
         url = f"/mfs/gen{i}"
         W.put_info(url, full, name="info_fullres.json")
@@ -331,6 +335,9 @@ def H_json(ctx, cfg):
             gsi.generate_scales_info(url + "/info_fullres.json", url, target_chunk_size=tcs)
         except AssertionError as e:
             bad.append([size, res, tcs, "AssertionError"])
+            continue
+        except TypeError as e:
+            bad.append([size, res, tcs, f"TypeError: {e}"])
             continue
         stored = W.env.fs.files[url + "/info"]
         try:
@@ -344,7 +351,7 @@ def H_json(ctx, cfg):
         if parsed != json.loads(json.dumps(ref)):
             bad.append([size, res, tcs, "stored info differs from the generated dictionary"])
     ctx.input("bad", bad)
-    ctx.sample("4 end-to-end runs of generate_scales_info")
+    ctx.sample("6 end-to-end runs of generate_scales_info (two with excess anisotropy)")
     ctx.prove(not bad, "stored-info-is-valid-json-of-the-generated-pyramid", detail=str(bad[:2]))
 
 
@@ -369,6 +376,28 @@ def replay(cfg, cex):
         if any(k.lstrip("0") == k[-2:] or k[:-2] in ("", "0") for k in keys):
             return True, f"zero key in {keys} for resolution {res}"
         return False, f"keys {keys} distinct"
+    if cfg["harness"] == "json":
+        # the same end-to-end runs on a real directory
+        import os
+        import tempfile
+        gsi = load.mod("scripts.generate_scales_info")
+        for size, res, tcs, why in cex["inputs"].get("bad") or []:
+            with tempfile.TemporaryDirectory() as td:
+                full = dict(type="image", data_type="uint8", num_channels=1, scales=[dict(size=size, resolution=res, voxel_offset=[0, 0, 0], encoding="raw")])
+                with open(os.path.join(td, "info_fullres.json"), "w") as f:
+                    json.dump(full, f)
+                try:
+                    gsi.generate_scales_info(os.path.join(td, "info_fullres.json"), td, target_chunk_size=tcs)
+                    with open(os.path.join(td, "info")) as f:
+                        parsed = json.load(f)
+                except Exception as e:
+                    return True, f"generate-scales-info for size {size}, resolution {res}, target chunk size {tcs}: {type(e).__name__}: {e}"
+                ref = copy.deepcopy(full)
+                gsi.set_info_params(ref)
+                dp.fill_scales_for_dyadic_pyramid(ref, target_chunk_size=tcs)
+                if parsed != json.loads(json.dumps(ref)):
+                    return True, f"stored info differs from the generated dictionary for size {size}, resolution {res}"
+        return False, "generate-scales-info writes valid JSON on the real code"
     if cfg["harness"] != "structure":
         return bool(cex["inputs"].get("bad")), str(cex["inputs"].get("bad"))[:300]
     size = cex["inputs"]["size"]
@@ -380,6 +409,10 @@ def replay(cfg, cex):
     except AssertionError:
         return True, f"generator raised AssertionError for size {size}, resolution {res}, target chunk {tcs}"
     scales = info["scales"]
+    try:
+        json.dumps(info)
+    except TypeError as e:
+        return True, f"generated info for size {size}, resolution {res}, target chunk {tcs} is not valid JSON material: {e}"
     best = min(res)
     delays = [builtins.int(round(real_math.log2(r / best))) for r in res]
     probs = []
